@@ -13,6 +13,9 @@ pub struct Case {
     pub single: Option<Tamper>,
     pub chunk: u64,
     pub cat_seed: u64,
+    /// replay of an adaptive forgery found at this schedule position
+    #[serde(default)]
+    pub adaptive: Option<usize>,
 }
 
 fn judge<G: AffineRepr>(
@@ -102,6 +105,19 @@ pub fn run_case<G: AffineRepr>(run: u64, case: &Case, st: &mut Stats) {
         st.probe("base-proof-not-accepted(skipped)");
         return;
     }
+    if let Some(pos) = case.adaptive {
+        for (p, fb) in adaptive_forgeries::<G>(&case.base.st, &pr.commitments, &pr.bytes) {
+            if p == pos {
+                st.eval();
+                let v = deliver::<G>(&case.base.st, &pr.commitments, &fb, &case.base.cap_v);
+                if v.accepted {
+                    st.violate(Violation { run, oracle: "altered-proof-rejected".into(), signature: format!("adaptive-forgery-accepted:{}", case.base.st.curve.name()),
+                        detail: format!("adaptive forgery for schedule position {} accepted", pos), case: to_value(case) });
+                }
+            }
+        }
+        return;
+    }
     if let Some(t) = &case.single {
         judge::<G>(run, case, &pr, t, st);
         return;
@@ -123,6 +139,22 @@ pub fn run_case<G: AffineRepr>(run: u64, case: &Case, st: &mut Stats) {
         }
     }
     if case.chunk == 0 {
+        // adaptive adversary: forgeries tuned to a weight derived too early
+        for (pos, fb) in adaptive_forgeries::<G>(&case.base.st, &pr.commitments, &pr.bytes) {
+            st.eval();
+            st.fault("F4-adaptive-weighted-blinding-shift");
+            let v = deliver::<G>(&case.base.st, &pr.commitments, &fb, &case.base.cap_v);
+            if v.accepted {
+                st.violate(Violation {
+                    run,
+                    oracle: "altered-proof-rejected".into(),
+                    signature: format!("adaptive-forgery-accepted:{}", case.base.st.curve.name()),
+                    detail: format!("forged proof (t_x_blinding - d, e_blinding + r_p*d with r_p = weight derivable after schedule position {}) was ACCEPTED: the verifier's relation-combining weight does not depend on the blinding scalars", pos),
+                    case: json!({"base": case.base, "single": Tamper::None, "chunk": 0, "cat_seed": 0, "adaptive": pos}),
+                });
+                break;
+            }
+        }
         st.count("proofs_exhaustively_flipped", 1);
         st.count("bits_per_proof_total", nbits);
         st.sample(
@@ -149,6 +181,7 @@ pub fn case_for(seed: u64, tier: Tier, run: u64) -> Case {
         single: None,
         chunk,
         cat_seed: rng.next_u64(),
+        adaptive: None,
     }
 }
 
@@ -183,4 +216,12 @@ pub fn replay(case: &Value) -> Vec<Violation> {
     let mut st = Stats::default();
     with_curve!(case.base.st.curve, G, run_case::<G>(0, &case, &mut st));
     st.violations
+}
+
+pub fn shrink(case: &Value) -> Vec<Value> {
+    let Ok(c) = serde_json::from_value::<Case>(case.clone()) else { return vec![] };
+    if c.single.is_none() && c.adaptive.is_none() {
+        return vec![];
+    }
+    shrink_session(&c.base).into_iter().map(|(b, _)| to_value(&Case { base: b, single: c.single.clone(), chunk: 0, cat_seed: 0, adaptive: c.adaptive })).collect()
 }
